@@ -57,10 +57,16 @@ def run_case(case):
     end, k = case['end'], case['k']
 
     class Cap:
+        failed = 0
+
         def emit(self, ev):
-            events.append((str(ev.eventType).split('.')[-1], ev.run.runId, world.now))
+            kind = str(ev.eventType).split('.')[-1]
+            events.append((kind, ev.run.runId, world.now))      # what was handed to the backend client, whether or not the hand-over then fails
             if case['emit_cost_ms']:
                 world.sleep(case['emit_cost_ms'] / 1000)
+            if case.get('emit_fail') and kind in ('COMPLETE', 'ABORT') and not Cap.failed:
+                Cap.failed = 1      # the backend drops the connection on the first terminal event (and is fine again afterwards)
+                raise ConnectionError('connection reset by peer')
 
     # a preemption point between "may this event still go out?" and the hand-over to the client: building the event is where a
     # real thread can be descheduled, and a slow transport stretches that window
@@ -230,7 +236,7 @@ def run_case(case):
         want_p = 'ABORT' if case['prior'] == 'failed' else 'COMPLETE'
         if not (len(pseq) >= 2 and pseq[0] == 'START' and all(x == 'RUNNING' for x in pseq[1:-1]) and pseq[-1] == want_p):
             return bad(f'earlier {case["prior"]} run in the same process emitted {pseq}', 'shape:earlier-run', [f'end {end}', 'second run in the same process'])
-    classes = [f'end {end}', f'emit cost {case["emit_cost_ms"]}', f'interval {case["interval_ms"]}'] + (['run() called from inside an exception handler'] if case.get('caller') == 'in_handler' else []) + (['second run in the same process'] if case.get('prior') else []) + ([f'config value of type {case["cfg_val"]}'] if case.get('cfg_val') else []) + (['config with a mapping whose key is not an identifier'] if case.get('cfg_key') is not None and not (case['cfg_key'].isidentifier() and case['cfg_key'] not in ('class', 'type')) else [])
+    classes = [f'end {end}', f'emit cost {case["emit_cost_ms"]}', f'interval {case["interval_ms"]}'] + (['run() called from inside an exception handler'] if case.get('caller') == 'in_handler' else []) + (['second run in the same process'] if case.get('prior') else []) + (['backend fails on the first terminal event'] if case.get('emit_fail') else []) + ([f'config value of type {case["cfg_val"]}'] if case.get('cfg_val') else []) + (['config with a mapping whose key is not an identifier'] if case.get('cfg_key') is not None and not (case['cfg_key'].isidentifier() and case['cfg_key'] not in ('class', 'type')) else [])
     if 'how' not in res:
         return bad(f'run() did not end within the horizon ({end}); events {seq}', f'run-not-ended:{end}', classes)
     if end in ('raise_init', 'raise_setup', 'raise_process', 'raise_shutdown', 'exit_exc_process', 'raise_fini', 'exit_then_raise_fini'):
@@ -273,6 +279,7 @@ def matrix_cases(tier):
         yield {'end': end, 'k': 3, 'work_ms': 100, 'emit_cost_ms': 0, 'interval_ms': 250, 'preempt_ms': None, 'caller': 'in_handler'}
         for val in ('set', 'bytearray', 'ndarray', 'tuple', 'nested'):
             yield {'end': end, 'k': 3, 'work_ms': 100, 'emit_cost_ms': 0, 'interval_ms': 250, 'preempt_ms': None, 'cfg_val': val}
+        yield {'end': end, 'k': 3, 'work_ms': 100, 'emit_cost_ms': 0, 'interval_ms': 250, 'preempt_ms': None, 'emit_fail': True}
         for prior in ('clean', 'failed'):
             yield {'end': end, 'k': 3, 'work_ms': 100, 'emit_cost_ms': 0, 'interval_ms': 250, 'preempt_ms': None, 'prior': prior}
         for key in ('traffic-light', 'class', '1', 'a.b', ''):
@@ -285,6 +292,7 @@ case_st = st.fixed_dictionaries({
     'preempt_ms': st.sampled_from([None, 0, 1, 7, 40, 99, 250]),
     'caller': st.sampled_from(['plain', 'plain', 'in_handler']),     # where run() is called from
     'cfg_val': st.sampled_from([None, None, None, 'set', 'frozenset', 'bytearray', 'bytes', 'tuple', 'none', 'nested', 'ndarray', 'float_nan']),
+    'emit_fail': st.sampled_from([False, False, True]),      # the lineage backend fails once, on the first terminal event
     'prior': st.sampled_from([None, None, None, 'clean', 'failed']),     # an earlier run in the same process, through the same emitter
     'cfg_key': st.sampled_from([None, None, 'car', 'traffic-light', 'traffic light', '1', 'class', 'a.b', 'Person', '_x', 'b\u00e4r', '', 'person ', 'x/y', 'type']),
 })
